@@ -575,8 +575,7 @@ func extraC08(c *Ctx, r *Report) {
 	var cas *ssa.Call
 	eachInstr(fn, func(in ssa.Instruction) {
 		if call, ok := in.(*ssa.Call); ok {
-			ci := describeCall(&call.Call)
-			if ci.Pkg == "sync/atomic" && strings.HasPrefix(ci.Name, "CompareAndSwap") && isField(call.Call.Args[0], pkgHealth, "circuitState", "lastAttempt") {
+			if kind, o, f, _, isA := atomicFieldCall(in); isA && kind == "cas" && isNamed(o, pkgHealth, "circuitState") && cfield(o, f) == "lastAttempt" {
 				cas = call
 			}
 		}
